@@ -533,3 +533,171 @@ Proof.
     + exists s6, true. split; [exact E6|]. split; [|split; [rewrite L6; exact Hl3|discriminate]].
       rewrite U6. apply f_equal. apply tupd_ext. intros d. destruct d; reflexivity.
 Qed.
+
+Theorem step_rm_wh_run (pp : path) (nm : name) (dir : bool) s u m x ch t0 rest0 :
+  Coherent s -> upper s = Some u -> tget u pp = Some (Dir m x ch) ->
+  mstack (u :: lowers s) (pp ++ [nm]) = t0 :: rest0 -> is_whT t0 = false ->
+  (if dir then is_dirT t0 = true /\ Forall (fun d => dir_children d = []) (dir_stack (t0 :: rest0)) else is_dirT t0 = false) ->
+  exists s' (b : bool), step (if dir then ORmdir (pp ++ [nm]) else OUnlink (pp ++ [nm])) s = (Ok ""%string, s') /\
+    upper s' = Some (tupd pp (chmap (Grm nm (has_entry nm ch) b)) u) /\ lowers s' = lowers s /\
+    (b = false -> ents nm (tl (dir_stack (mstack (u :: lowers s) pp))) = [] /\ has_entry nm ch = true).
+Proof.
+  intros HC Hu Hpp Hms Hnw Hkind.
+  destruct (walk_run u pp [] s (root s) _ HC Hu eq_refl Hpp eq_refl) as (s1 & n1 & E1 & HC1 & (U1 & L1 & I1) & Hg1). cbn [app] in Hg1.
+  assert (Hu1 : upper s1 = Some u) by congruence.
+  destruct (do_rm_wh_run pp nm dir s1 u n1 m x ch t0 rest0 HC1 Hu1 Hg1 Hpp) as (s' & b & E & U' & L' & Hb); try assumption; [rewrite L1; exact Hms|].
+  exists s', b. split; [|split; [exact U'|split; [congruence|rewrite <- L1; exact Hb]]].
+  destruct dir; cbn [step]; rewrite with_parent_snoc; unfold walk; rewrite (bind_ok _ _ _ _ _ E1), (bind_ok _ _ _ _ _ E); reflexivity.
+Qed.
+
+Lemma collect_trees_empty ds : Forall (fun d => dir_children d = []) ds -> collect_trees ds = [].
+Proof.
+  unfold collect_trees. intros H.
+  assert (G : forall acc, fold_left (fun a d => fold_left add_tree (dir_children d) a) ds acc = acc).
+  { induction H as [|d ds Hd _ IH]; intros acc; cbn [fold_left]; [reflexivity|]. rewrite Hd. cbn [fold_left]. apply IH. }
+  apply G.
+Qed.
+
+Section RemoveWh.
+Variables (u : tree) (ls : list tree) (pp : path) (nm : name) (m : N) (x : xattrs) (ch : list (name * tree)) (t0 : tree) (rest0 : list tree) (f : nat) (dir b : bool).
+Hypothesis W : Forall wf (u :: ls).
+Hypothesis Hpp : tget u pp = Some (Dir m x ch).
+Hypothesis Hms : mstack (u :: ls) (pp ++ [nm]) = t0 :: rest0.
+Hypothesis Hnw : is_whT t0 = false.
+Hypothesis Hkind : if dir then is_dirT t0 = true /\ Forall (fun d => dir_children d = []) (dir_stack (t0 :: rest0)) else is_dirT t0 = false.
+Hypothesis Hb : b = false -> ents nm (tl (dir_stack (mstack (u :: ls) pp))) = [] /\ has_entry nm ch = true.
+Hypothesis Hd : DEPTH = (S (S f) + List.length pp)%nat.
+Let G := Grm nm (has_entry nm ch) b.
+
+Lemma rm_wh_merge mv : merge (u :: ls) = Some mv ->
+  oteq (merge (tupd pp (chmap G) u :: ls)) (Some (tupd pp (dir_del nm) mv)) /\
+  (if dir then h_rmdir pp nm else h_unlink pp nm) mv = Ok (tupd pp (dir_del nm) mv).
+Proof.
+  intros Hm. destruct (mstack_head pp u ls _ Hpp) as [r Hr].
+  pose proof (wf_tget _ (Forall_inv W) _ _ Hpp) as Wd.
+  assert (Hn : NoDup (map fst ch)) by (inversion Wd; assumption).
+  assert (Hn1 : NoDup (map fst (if has_entry nm ch then adel nm ch else ch))) by (destruct (has_entry nm ch); [apply keys_adel_nd|]; exact Hn).
+  assert (Hnone1 : afind nm (if has_entry nm ch then adel nm ch else ch) = None).
+  { unfold has_entry. destruct (afind nm ch) eqn:E; [rewrite afind_adel, String.eqb_refl; reflexivity|exact E]. }
+  split.
+  - assert (HG : only_at nm G ch).
+    { unfold G, Grm. cbv zeta. split; [destruct b; [apply keys_aset|]; exact Hn1|]. split.
+      - intros k Hk. apply String.eqb_neq in Hk. destruct b; rewrite ?afind_aset, ?Hk; destruct (has_entry nm ch); rewrite ?afind_adel, ?Hk; reflexivity.
+      - intros c0 H0. destruct b; [rewrite afind_aset_same in H0; assert (E : c0 = Wh) by congruence; rewrite E; constructor|].
+        rewrite Hnone1 in H0. discriminate. }
+    pose proof (merge_tupd nm G (S f) pp u ls m x ch W Hpp HG Hd) as M. cbv zeta in M.
+    rewrite Hm in M. cbn [option_map] in M.
+    assert (Eg : resolve (S f) (ents nm (dir_stack (Dir m x (G ch) :: tl (mstack (u :: ls) pp)))) = None).
+    { rewrite (dir_stack_head m x (G ch)), ents_cons. cbn [dir_children]. unfold G, Grm. cbv zeta. destruct b.
+      - rewrite afind_aset_same. reflexivity.
+      - rewrite Hnone1. destruct (Hb eq_refl) as [Hlow _]. rewrite Hr in *. cbn [tl] in *.
+        rewrite (dir_stack_tl_indep m x ch). rewrite (dir_stack_head m x ch) in Hlow. cbn [tl] in Hlow. rewrite Hlow. reflexivity. }
+    rewrite Eg in M. exact M.
+  - destruct (tget_merge (S f) pp u ls _ W Hpp eq_refl Hd) as (r0 & Hr0 & Ht). rewrite Hm in Hr0. assert (E0 : r0 = mv) by congruence. rewrite E0 in Ht. clear E0 Hr0.
+    rewrite Hr in Ht. assert (Wr : Forall wf (Dir m x ch :: r)) by (rewrite <- Hr; apply mstack_wf; exact W).
+    destruct (resolve_dir_spec (S f) m x ch r Wr) as (chs & Er & N & K). rewrite Er in Ht.
+    assert (E0 : afind nm chs = resolve (S f) (t0 :: rest0)).
+    { rewrite K. pose proof Hms as H. rewrite mstack_snoc, Hr in H. rewrite H. reflexivity. }
+    destruct dir.
+    + destruct Hkind as [Hdt Hemp]. destruct t0 as [m' x' ch0| | |]; try discriminate.
+      unfold h_rmdir. rewrite Ht, E0. cbn [resolve]. rewrite (collect_trees_empty _ Hemp). reflexivity.
+    + unfold h_unlink. rewrite Ht, E0. destruct t0; try discriminate; reflexivity.
+Qed.
+End RemoveWh.
+
+Theorem refines_remove_wh s (dir : bool) (pp : path) (nm : name) t0 rest0 u m x ch v :
+  Coherent s -> upper s = Some u -> tget u pp = Some (Dir m x ch) ->
+  mstack (u :: lowers s) (pp ++ [nm]) = t0 :: rest0 -> is_whT t0 = false ->
+  (if dir then is_dirT t0 = true /\ Forall (fun d => dir_children d = []) (dir_stack (t0 :: rest0)) else is_dirT t0 = false) ->
+  (List.length (pp ++ [nm]) < DEPTH)%nat -> view (load_all s) = Some v ->
+  refines_at s (if dir then ORmdir (pp ++ [nm]) else OUnlink (pp ++ [nm])) v.
+Proof.
+  intros HC Hu Hpp Hms Hnw Hkind Hlen Hv. set (o := if dir then ORmdir (pp ++ [nm]) else OUnlink (pp ++ [nm])).
+  destruct (step_rm_wh_run pp nm dir s u m x ch t0 rest0 HC Hu Hpp Hms Hnw Hkind) as (s' & b & Hrun & Hu' & Hl' & Hb). fold o in Hrun.
+  unfold refines_at, run_op. rewrite Hrun. cbn [fst snd].
+  assert (Hd : exists f, DEPTH = (S (S f) + List.length pp)%nat).
+  { rewrite app_length in Hlen. cbn [List.length] in Hlen. exists (DEPTH - 2 - List.length pp)%nat. lia. }
+  destruct Hd as [f Hd].
+  pose proof (coherent_wf_layers s u HC Hu) as W.
+  assert (Ho : coh_op o = true) by (unfold o; destruct dir; reflexivity).
+  destruct (refine_from_disk s o v _ s' HC Ho Hv Hrun) as [R T]; [|cbv zeta; auto].
+  intros mv Hm. rewrite Hu in Hm. cbn [all_layers] in Hm. rewrite Hu', Hl'. cbn [all_layers]. cbv zeta.
+  destruct (rm_wh_merge u (lowers s) pp nm m x ch t0 rest0 f dir b W Hpp Hms Hnw Hkind Hb Hd mv Hm) as [M I].
+  unfold o. destruct dir; cbn [fs_apply]; rewrite split_last_snoc; unfold fs_mut; cbn [f_tree f_next]; rewrite I; cbn [fst snd f_tree]; (split; [reflexivity|exact M]).
+Qed.
+
+(* ------------------------------------------------------------------ the side condition of the whiteout cases, on the disk state *)
+Definition no_children (d : tree) : bool := match dir_children d with [] => true | _ => false end.
+(* [direct_wh s o]: the parent is a directory of the upper layer (no copy-up), the path is shorter than DEPTH, and
+   - mkdir / create / mknod / symlink: the first candidate for the name is a whiteout (of the upper layer or of a lower one);
+   - unlink: the first candidate is a regular file or symlink of any layer (lower candidates may exist);
+   - rmdir: the first candidate is a directory and no directory that is merged into it (dir_stack) has an entry. *)
+Definition direct_wh (s : state) (o : op) : bool :=
+  match upper s with
+  | None => false
+  | Some u =>
+      let L := u :: lowers s in
+      let par (p : path) (test : list tree -> bool) :=
+        match split_last p with
+        | Some (pp, nm) =>
+            (List.length p <? DEPTH)%nat && match tget u pp with Some (Dir _ _ _) => true | _ => false end && test (mstack L p)
+        | None => false
+        end in
+      match o with
+      | OMkdir p _ | OCreate p _ | OMknod p _ | OSymlink p _ => par p (fun g => match g with Wh :: _ => true | _ => false end)
+      | OUnlink p => par p (fun g => match g with t0 :: _ => negb (is_whT t0) && negb (is_dirT t0) | [] => false end)
+      | ORmdir p => par p (fun g => match g with t0 :: _ => is_dirT t0 && forallb no_children (dir_stack g) | [] => false end)
+      | _ => false
+      end
+  end.
+
+Theorem op_refines_whiteout s o v : Coherent s -> direct_wh s o = true -> view (load_all s) = Some v -> refines_at s o v.
+Proof.
+  intros HC Hd Hv. unfold direct_wh in Hd. destruct (upper s) as [u|] eqn:Hu; [|discriminate]. cbv zeta in Hd.
+  assert (Hpar : forall p test, match split_last p with
+        | Some (pp, nm) => (List.length p <? DEPTH)%nat && match tget u pp with Some (Dir _ _ _) => true | _ => false end && test (mstack (u :: lowers s) p)
+        | None => false end = true ->
+        exists pp nm m x ch, p = pp ++ [nm] /\ (List.length p < DEPTH)%nat /\ tget u pp = Some (Dir m x ch) /\ test (mstack (u :: lowers s) p) = true).
+  { intros p test H. destruct (split_last p) as [[pp nm]|] eqn:Esp; [|discriminate]. apply split_last_spec in Esp.
+    apply andb_prop in H. destruct H as [H H3]. apply andb_prop in H. destruct H as [H1 H2]. apply Nat.ltb_lt in H1.
+    destruct (tget u pp) as [[m x ch| | |]|] eqn:Hpp; try discriminate. exists pp, nm, m, x, ch. auto. }
+  assert (Hins : forall p, match split_last p with
+        | Some (pp, nm) => (List.length p <? DEPTH)%nat && match tget u pp with Some (Dir _ _ _) => true | _ => false end &&
+                           (fun g => match g with Wh :: _ => true | _ => false end) (mstack (u :: lowers s) p)
+        | None => false end = true -> forall c, ins_leaf o (next_ino s) = Some (p, c) -> refines_at s o v).
+  { intros p H c Ho. destruct (Hpar p (fun g => match g with Wh :: _ => true | _ => false end) H) as (pp & nm & m & x & ch & -> & Hlen & Hpp & Ht). cbv beta in Ht.
+    destruct (mstack (u :: lowers s) (pp ++ [nm])) as [|[| | |] rest0] eqn:Hms; try discriminate.
+    exact (refines_insert_wh s o pp nm c u m x ch rest0 v HC Ho Hu Hpp Hms Hlen Hv). }
+  destruct o; try discriminate.
+  - apply (Hins p Hd _ eq_refl).
+  - apply (Hins p Hd _ eq_refl).
+  - apply (Hins p Hd _ eq_refl).
+  - apply (Hins p Hd _ eq_refl).
+  - destruct (Hpar p (fun g => match g with t0 :: _ => negb (is_whT t0) && negb (is_dirT t0) | [] => false end) Hd) as (pp & nm & m & x & ch & -> & Hlen & Hpp & Ht). cbv beta in Ht.
+    destruct (mstack (u :: lowers s) (pp ++ [nm])) as [|t0 rest0] eqn:Hms; [discriminate|].
+    apply andb_prop in Ht. destruct Ht as [A B]. apply negb_true_iff in A. apply negb_true_iff in B.
+    exact (refines_remove_wh s false pp nm t0 rest0 u m x ch v HC Hu Hpp Hms A B Hlen Hv).
+  - destruct (Hpar p (fun g => match g with t0 :: _ => is_dirT t0 && forallb no_children (dir_stack g) | [] => false end) Hd) as (pp & nm & m & x & ch & -> & Hlen & Hpp & Ht). cbv beta in Ht.
+    destruct (mstack (u :: lowers s) (pp ++ [nm])) as [|t0 rest0] eqn:Hms; [discriminate|].
+    apply andb_prop in Ht. destruct Ht as [A B].
+    assert (Hnw : is_whT t0 = false) by (destruct t0; try discriminate; reflexivity).
+    assert (Hemp : Forall (fun d => dir_children d = []) (dir_stack (t0 :: rest0))).
+    { apply Forall_forall. intros d Hin. rewrite forallb_forall in B. specialize (B d Hin). unfold no_children in B.
+      destruct (dir_children d); [reflexivity|discriminate]. }
+    exact (refines_remove_wh s true pp nm t0 rest0 u m x ch v HC Hu Hpp Hms Hnw (conj A Hemp) Hlen Hv).
+Qed.
+
+Theorem op_refines_whiteout_history u ls nx ops o : Forall layer_ok (u :: ls) -> coh_history ops = true ->
+  direct_wh (run_dumps ops (load_all (fresh (Some u) ls nx))) o = true -> op_refines (Some u) ls nx ops o.
+Proof.
+  intros Hok Hh Hd. unfold op_refines. cbv zeta. set (s := run_dumps ops (load_all (fresh (Some u) ls nx))) in *.
+  assert (HC : Coherent (load_all s)).
+  { apply load_all_coherent. apply coherent_history; [exact Hh|]. apply load_all_coherent. apply fresh_coherent. exact Hok. }
+  destruct (view (load_all s)) as [v|] eqn:Hv; [|exact I].
+  assert (Hv' : view (load_all (load_all s)) = Some v).
+  { rewrite <- Hv. apply (view_load_all_vs s (root (load_all s))); try reflexivity.
+    unfold load_all. cbn [root]. apply load_node_vs. }
+  assert (Hd' : direct_wh (load_all s) o = true) by exact Hd.
+  destruct (op_refines_whiteout (load_all s) o v HC Hd' Hv') as (R & T & _).
+  split; [exact R|]. change (ser SER ?t) with (ser_opt (Some t)). apply oteq_ser. exact T.
+Qed.
